@@ -1,6 +1,8 @@
 package worlds
 
 import (
+	"bytes"
+	"compress/gzip"
 	"encoding/json"
 	"errors"
 	"fmt"
@@ -555,7 +557,7 @@ func (w *hWorld) trial(fs *hFileSet) {
 		return false
 	}
 
-	kind := T.Draw(9, "trial.kind")
+	kind := T.Draw(10, "trial.kind")
 	w.k.Count(fmt.Sprintf("trial:%d", kind))
 
 	switch kind {
@@ -678,6 +680,61 @@ func (w *hWorld) trial(fs *hFileSet) {
 		w.k.Count("fault:byte-damage")
 		w.nontrivial = true
 		w.verdict(p, fmt.Sprintf("byte-damage read=%d mode=%d", at, mode), w.anchor, ops, err, false, false)
+
+	case 9: // the primary read fails and an alternate source serves the same file, (re)compressed to just over / at its limit
+		role := present[T.Draw(len(present), "altbig.role")]
+		_, d := sizeOf(role)
+		raw, _ := w.comp.Decompress("GZIP", w.cas.Files[w.uris[role]])
+		big := gzipStored(raw)
+		slack := []int{-1, 0, 1}[T.Draw(3, "altbig.slack")]
+		setLimit(&p, role, uint(len(big)+slack))
+
+		// every other file must stay within its own limit
+		others := false
+
+		for _, r := range present {
+			if r == role || ((r == "coreProof" || r == "provProof") && (role == "coreProof" || role == "provProof")) {
+				continue
+			}
+
+			s2, d2 := sizeOf(r)
+			if s2 > limitOf(&p, r) || d2 > limitOf(&p, r)*int(p.MaxMemoryDecompressionFactor) {
+				others = true
+			}
+		}
+
+		target := w.uris[role]
+		w.readHook = func(n int, addr string, content []byte, found bool) ([]byte, error) {
+			switch {
+			case addr == "altBig/"+target:
+				return append([]byte(nil), big...), nil
+			case strings.HasPrefix(addr, "altBig/"):
+				return nil, errors.New("not found at alternate")
+			case addr == target:
+				return nil, errors.New("injected CAS read failure")
+			}
+
+			return nil, nil
+		}
+
+		lim := len(big) + slack
+		mustFail := others || len(big) > lim || d > lim*int(p.MaxMemoryDecompressionFactor)
+		// with a shared proof limit the other proof file is judged against the same number
+		if role == "coreProof" || role == "provProof" {
+			for _, r := range []string{"coreProof", "provProof"} {
+				if r != role && w.uris[r] != "" {
+					s2, d2 := sizeOf(r)
+					if s2 > lim || d2 > lim*int(p.MaxMemoryDecompressionFactor) {
+						mustFail = true
+					}
+				}
+			}
+		}
+
+		ops, err := w.read(p, w.anchor, []string{"altBig"})
+		w.k.Count("fault:alternate-source-at-size-limit")
+		w.nontrivial = true
+		w.verdict(p, fmt.Sprintf("alt-size-limit %s served=%d limit=%d decompressed=%d", role, len(big), lim, d), w.anchor, ops, err, mustFail, !mustFail)
 
 	case 5, 6: // Byzantine, well-formed file sets whose verdict is known by construction
 		w.structural(fs)
@@ -876,6 +933,17 @@ func (w *hWorld) randomEdit(orig *hFileSet) {
 	w.k.Count("fault:byzantine-random-edit")
 	w.nontrivial = true
 	w.verdict(w.proto, "random-edit", anchor, ops, err, false, false)
+}
+
+// gzipStored is a valid gzip stream of data without compression (larger than the compressed original).
+func gzipStored(data []byte) []byte {
+	var buf bytes.Buffer
+
+	zw, _ := gzip.NewWriterLevel(&buf, gzip.NoCompression)
+	_, _ = zw.Write(data)
+	_ = zw.Close()
+
+	return buf.Bytes()
 }
 
 func sortStrings(s []string) {
